@@ -223,7 +223,8 @@ def enable_column(rnd, w, cycles, low=False):
 
 # --------------------------------------------------------------------------- building a plan in the real library
 
-FORMS = ('base_wire', 'base_nowire', 'nobase_wire', 'nobase_nowire', 'positional_nobase')
+FORMS = ('base_wire', 'base_nowire', 'nobase_wire', 'nobase_nowire', 'positional_nobase',
+         'wire_is_enable', 'wire_buf_of_enable', 'wire_reg_of_enable')
 EARLY = ('none', 'sim', 'scope', 'oldwaveform', 'query', 'rtl')
 
 
@@ -239,6 +240,22 @@ def make_driver(py4hw, hw, name, form, en, clkwire):
         return py4hw.ClockDriver(name, enable=en)
     if form == 'positional_nobase':
         return py4hw.ClockDriver(name, 25E6, 0, None, en, clkwire())
+    # wire= is a net DRIVEN by the design, the way RTL generation wants a gated clock described (tb_VitisKernelPlatform:
+    # ClockDriver('clk_dut', base=hw.clockDriver, wire=clk_out, enable=clk_out)).  The value of that net is a level, not a
+    # clock: the domain advances whenever the enable reads non-zero
+    if en is None:
+        return py4hw.ClockDriver(name, base=hw.clockDriver, enable=None, wire=clkwire())
+    if form == 'wire_is_enable':
+        # the enable net itself (GatedClock output, register output, gate output, Sequence source, or a poked net)
+        return py4hw.ClockDriver(name, base=hw.clockDriver, wire=en, enable=en)
+    w = clkwire(en.getWidth())
+    tag = '%s_%d' % (w.name, len(hw.children))
+    if form == 'wire_buf_of_enable':
+        py4hw.Buf(hw, 'clkbuf_' + tag, en, w)
+        return py4hw.ClockDriver(name, base=hw.clockDriver, wire=w, enable=en)
+    if form == 'wire_reg_of_enable':
+        py4hw.Reg(hw, 'clkreg_' + tag, en, w)       # a register output as clock wire, another net as enable
+        return py4hw.ClockDriver(name, base=hw.clockDriver, wire=w, enable=en)
     raise ValueError(form)
 
 
@@ -379,11 +396,11 @@ def build(plan, stim=None):
         name = 'gclk' if plan.get('same_names') else 'clk_d%d' % k
         form = d.get('form', 'base_wire')
         if d.get('en_start', True):
-            obj = make_driver(py4hw, hw, name, form, wires['en%d' % k], lambda k=k: W('clkw_d%d' % k, 1))
+            obj = make_driver(py4hw, hw, name, form, wires['en%d' % k], lambda w=1, k=k: W('clkw_d%d' % k, w))
             B.drvrec[k] = dict(key='d%d' % k, name=name, obj=obj, en=wires['en%d' % k], kind=d['kind'], enw=d['enw'], form=form)
         else:
             # a separate clock domain without gating (yet): its enable net may be attached to the live driver later
-            obj = make_driver(py4hw, hw, name, form, None, lambda k=k: W('clkw_d%d' % k, 1))
+            obj = make_driver(py4hw, hw, name, form, None, lambda w=1, k=k: W('clkw_d%d' % k, w))
             B.drvrec[k] = dict(key='d%d' % k, name=name, obj=obj, en=None, kind='always_on', enw=0, form=form)
         B.attached[k] = False
     items = []
@@ -571,7 +588,7 @@ def apply_rephase(B, plan, rp):
             _, j, form = ch.split(':')
             j = int(j)
             name = 'gclk' if plan.get('same_names') else 'clk_d%d_r' % k
-            obj = make_driver(py4hw, B.hw, name, form, B.wires['en%d' % j], lambda: B.W('clkw_d%d_r' % k, 1))
+            obj = make_driver(py4hw, B.hw, name, form, B.wires['en%d' % j], lambda w=1: B.W('clkw_d%d_r' % k, w))
             B.drvrec[k] = dict(key='d%dr' % k, name=name, obj=obj, en=B.wires['en%d' % j], kind=doms[j]['kind'], enw=doms[j]['enw'], form=form)
             attach(B, k)
         elif ch.startswith('enable_'):
@@ -654,6 +671,9 @@ def run_design(run, plan, stim, stats=None, verbose=False):
             seen.setdefault(d['key'], [0, 0])[0 if z else 1] += 1
             bump('edges_enable_zero' if z else 'edges_enable_nonzero', d['kind'])
             bump('edges_enable_zero_by_form' if z else 'edges_enable_nonzero_by_form', d['form'])
+            if not z and d.get('prev_on') and d['form'].startswith('wire_'):
+                stats['consecutive_enabled_edges_with_driven_clock_wire'] = stats.get('consecutive_enabled_edges_with_driven_clock_wire', 0) + 1
+            d['prev_on'] = not z
             if not z and d['now'] != 1:
                 bump('edges_enable_multibit_not_1', d['kind'])
                 if not d['now'] & 1:
@@ -849,6 +869,8 @@ def run_check(run, tier, seed, shard):
     run.assume('reference machines and input domains are those of C09 (vlib/seqcat.py)')
     run.assume('the simulator reads ClockDriver.enable at every edge: assigning another net (or None, or a first net) to the enable of '
                'a driver that is already in use takes effect at the next edge, with or without a new getSimulator() call')
+    run.assume('ClockDriver.wire only names the clock net (RTL generation); its value, driven or not, does not decide when the domain '
+               'advances: a gated domain advances exactly at the edges before which its enable read non-zero')
     run.assume('clk(n) is n edges: the enable of every domain is sampled before each of them (judged per edge from a Simulator '
                'listener, which the simulator notifies at the end of every cycle, also inside a clk(n) call)')
     run.assume('a ClockDriver with an enable gates its domain however it was built (with or without base=, with or without wire=, '
@@ -915,6 +937,8 @@ def post_merge(run, tier, seed):
         if zf.get(form, 0) == 0 or nzf.get(form, 0) == 0:
             run.inconclusive.append('driver form %s: %d edges with enable 0, %d with enable != 0 (both must be observed)'
                                     % (form, zf.get(form, 0), nzf.get(form, 0)))
+    if not run.extra.get('consecutive_enabled_edges_with_driven_clock_wire'):
+        run.inconclusive.append('no two consecutive enabled edges on a driver whose wire= net is driven by the design')
     for how in EARLY:
         if not run.extra.get('designs_by_early_step', {}).get(how):
             run.inconclusive.append('no design with early resolution step %s' % how)
